@@ -420,7 +420,7 @@ extern "C" void hsim_yield(const void * addr, int is_write)
   if (g_log_access && g_access.size() < ACCESS_TOTAL && g_access.size() - tl_access_begin < ACCESS_PER_CALL)
     {   // remember each distinct (address, kind) this call touches: the zygote uses it to aim concurrency at real conflicts
     bool seen = false;
-    for (size_t k = tl_access_begin; k < g_access.size() && !seen; ++k) seen = g_access[k].addr == a && g_access[k].is_write >= static_cast<uint32_t>(is_write);
+    for (size_t k = tl_access_begin; k < g_access.size() && !seen; ++k) seen = g_access[k].addr == a && g_access[k].is_write == static_cast<uint32_t>(is_write);
     if (!seen) g_access.push_back(AccessRec{static_cast<uint32_t>(tl_item), static_cast<uint32_t>(is_write), a});
     }
   if (!g_fine.active) return;
@@ -428,15 +428,20 @@ extern "C" void hsim_yield(const void * addr, int is_write)
   ++g_fine.yields;
   int me = tl_client, target = -1;
   if (g_fine.scripted) target = script_lookup(static_cast<uint8_t>(me), idx);
-  else if (g_fine.budget > 0)
+  else if (g_fine.budget > 0 || g_fine.den == 1)
     {
     bool hot = false;
     if (g_fine.focus) for (uint64_t f : *g_fine.focus) if (f == a) hot = true;
-    if (hot ? g_fine.rng.below(2) == 0 : (g_fine.den && g_fine.rng.below(g_fine.den) == 0)) target = pick_runnable(me, true);
+    if (g_fine.den == 1)
+      {   // one-preemption strategy: stop the first runner just before its budget-th conflicting access, let the other
+          // call run to completion, resume.  The classic shape of a lost update / torn pair.
+      if (hot && g_fine.budget > 0 && --g_fine.budget == 0) target = pick_runnable(me, true);
+      }
+    else if (hot ? g_fine.rng.below(2) == 0 : (g_fine.den && g_fine.rng.below(g_fine.den) == 0)) target = pick_runnable(me, true);
     }
   if (target < 0 || target == me || target >= g_fine.nclients) return;
   if (g_fine.state[target] != ST_PENDING && g_fine.state[target] != ST_RUNNING) return;
-  if (!g_fine.scripted) { --g_fine.budget; g_fine.trace.push_back(TraceRec{g_fine.seg_index, static_cast<uint32_t>(me), idx, static_cast<uint32_t>(target)}); }
+  if (!g_fine.scripted) { if (g_fine.den != 1) --g_fine.budget; g_fine.trace.push_back(TraceRec{g_fine.seg_index, static_cast<uint32_t>(me), idx, static_cast<uint32_t>(target)}); }
   handoff(me, target);
   }
 
@@ -804,6 +809,7 @@ struct Stats
   uint64_t long_runs = 0, very_long_runs = 0, churn_runs = 0, respawns = 0, max_plan_len = 0;
   uint64_t alias_same[AL_N] = {0}, alias_cross[AL_N] = {0};
   uint64_t calls = 0, runs = 0, nontrivial = 0, iso_checks = 0, disagreements = 0, signals_seen = 0, lost = 0, findings = 0, unstable = 0;
+  uint64_t plain_conflict_pairs = 0;
   uint64_t access_records = 0, nonstack_writes = 0, conflict_pairs = 0, plans_with_conflicts = 0, directed_execs = 0;
   uint64_t fine_execs = 0, concurrent_segments = 0, concurrent_calls = 0, preemptions = 0, distinct_traces = 0;
   uint64_t digest = 0;
@@ -865,7 +871,7 @@ static void print_stats(const Stats & st, const char * mode, uint64_t seed0)
                   ",\"preemptions\":" + std::to_string(st.preemptions) + ",\"baton_handoffs\":" + std::to_string(g_switches_total) +
                   ",\"distinct_decision_traces\":" + std::to_string(st.traces.size()) +
                   ",\"access_records\":" + std::to_string(st.access_records) + ",\"nonstack_writes_observed\":" + std::to_string(st.nonstack_writes) +
-                  ",\"conflicting_call_pairs\":" + std::to_string(st.conflict_pairs) + ",\"plans_with_conflicts\":" + std::to_string(st.plans_with_conflicts) +
+                  ",\"conflicting_call_pairs\":" + std::to_string(st.conflict_pairs) + ",\"conflicting_call_pairs_plain_access\":" + std::to_string(st.plain_conflict_pairs) + ",\"plans_with_conflicts\":" + std::to_string(st.plans_with_conflicts) +
                   ",\"directed_executions\":" + std::to_string(st.directed_execs) +
                   ",\"long_runs\":" + std::to_string(st.long_runs) + ",\"very_long_runs\":" + std::to_string(st.very_long_runs) + ",\"max_plan_len\":" + std::to_string(st.max_plan_len) +
                   ",\"churn_runs\":" + std::to_string(st.churn_runs) + ",\"planned_respawns\":" + std::to_string(st.respawns) +
@@ -935,29 +941,50 @@ static int do_scan_serial(uint64_t seed0, uint64_t count, const char * hashfile,
 
 // calls i < j of different callers conflict when one writes a non-stack address the other reads or writes
 struct Conflict { int i, j; std::vector<uint64_t> addrs; };
-static std::vector<Conflict> find_conflicts(const Plan & p, const std::vector<AccessRec> & acc, uint64_t & writes_seen)
+static std::vector<Conflict> find_conflicts(const Plan & p, const std::vector<AccessRec> & acc, uint64_t & writes_seen, uint64_t & plain_pairs)
   {
-  std::map<uint64_t, std::vector<std::pair<int, bool>>> by_addr;     // addr -> (item, wrote?)
-  writes_seen = 0;
-  for (const AccessRec & a : acc) { by_addr[a.addr].push_back({static_cast<int>(a.item), a.is_write != 0}); if (a.is_write) ++writes_seen; }
-  std::map<std::pair<int, int>, std::vector<uint64_t>> pairs;
+  struct Touch { int item; bool wrote; bool atomic; };
+  std::map<uint64_t, std::vector<Touch>> by_addr;
+  writes_seen = 0; plain_pairs = 0;
+  for (const AccessRec & a : acc) { by_addr[a.addr].push_back(Touch{static_cast<int>(a.item), (a.is_write & 1) != 0, (a.is_write & 2) != 0}); if (a.is_write & 1) ++writes_seen; }
+  // pairs whose conflict involves a plain (non-atomic) access come first: an atomic counter bumped by every caller is a
+  // conflict too, but rarely the interesting one
+  std::map<std::pair<int, int>, std::vector<uint64_t>> plain, atomic_only;
   for (auto & kv : by_addr)
     {
     auto & v = kv.second;
-    bool any_write = false; for (auto & e : v) any_write = any_write || e.second;
+    bool any_write = false; for (auto & e : v) any_write = any_write || e.wrote;
     if (!any_write || v.size() > 400) continue;
     for (size_t x = 0; x < v.size(); ++x) for (size_t y = x + 1; y < v.size(); ++y)
       {
-      if (!(v[x].second || v[y].second)) continue;
-      int i = std::min(v[x].first, v[y].first), j = std::max(v[x].first, v[y].first);
+      if (!(v[x].wrote || v[y].wrote)) continue;
+      int i = std::min(v[x].item, v[y].item), j = std::max(v[x].item, v[y].item);
       if (i == j || i < 0 || j >= static_cast<int>(p.items.size()) || p.items[i].client == p.items[j].client) continue;
-      auto & ad = pairs[{i, j}];
+      auto & tab = (v[x].atomic && v[y].atomic) ? atomic_only : plain;
+      if (tab.size() > 4000 && !tab.count({i, j})) continue;
+      auto & ad = tab[{i, j}];
       if (ad.size() < 8) ad.push_back(kv.first);
-      if (pairs.size() > 4000) break;
       }
     }
   std::vector<Conflict> out;
-  for (auto & kv : pairs) out.push_back(Conflict{kv.first.first, kv.first.second, kv.second});
+  // a pair is worth running together only if both calls would still be made by the threads that made them in the
+  // reference execution: no restart of either caller between the two positions
+  auto same_threads = [&](const std::pair<int, int> & k)
+    {
+    for (auto & e : p.respawn)
+      if ((static_cast<int>(e.first) > k.first && e.second == p.items[k.first].client) ||
+          (static_cast<int>(e.first) > k.second && e.second == p.items[k.second].client) ||
+          (static_cast<int>(e.first) > k.first && static_cast<int>(e.first) <= k.second && e.second == p.items[k.second].client)) return false;
+    return true;
+    };
+  auto differ = [&](const std::pair<int, int> & k)
+    { const Item & x = p.items[k.first]; const Item & y = p.items[k.second]; return same_threads(k) && (x.op != y.op || x.a != y.a || x.b != y.b); };
+  // among plain conflicts, pairs that ask different questions first: two identical calls racing write identical data
+  for (auto & kv : plain) if (differ(kv.first)) out.push_back(Conflict{kv.first.first, kv.first.second, kv.second});
+  size_t differing = out.size();
+  for (auto & kv : plain) if (!differ(kv.first)) out.push_back(Conflict{kv.first.first, kv.first.second, kv.second});
+  plain_pairs = differing ? differing : out.size();
+  for (auto & kv : atomic_only) if (!plain.count(kv.first)) out.push_back(Conflict{kv.first.first, kv.first.second, kv.second});
   return out;
   }
 
@@ -971,9 +998,49 @@ static Schedule directed_schedule(const Plan & p, const Conflict & c, uint64_t s
     {
     if (static_cast<int>(k) == c.j) continue;
     Segment g; g.den = 16; g.budget = 0; g.items = {static_cast<int>(k)};
-    if (static_cast<int>(k) == c.i) { g.items.push_back(c.j); g.focus = c.addrs; g.den = 8; g.budget = 2 + static_cast<int>(r.below(5)); }
+    if (static_cast<int>(k) == c.i)
+      {
+      g.items.push_back(c.j); g.focus = c.addrs;
+      if (r.chance(60)) { g.den = 1; g.budget = 1 + static_cast<int>(r.below(5)); }      // one preemption, at the n-th conflicting access
+      else { g.den = 8; g.budget = 2 + static_cast<int>(r.below(5)); }
+      }
     for (auto & e : p.respawn) if (e.first == k || (static_cast<int>(k) == c.i && static_cast<int>(e.first) == c.j)) g.respawn.push_back(e.second);
     s.segs.push_back(g);
+    if (static_cast<int>(k) == c.i)
+      {   // echo probes: both calls again, one at a time, right after they ran together - whatever the pair left behind in
+          // shared state is most likely to be seen by the same questions asked again (same oracle: the isolated bits)
+      for (int src : {c.i, c.j, c.i})
+        {
+        s.items.push_back(p.items[src]);
+        if (src == c.i && s.items.size() == p.items.size() + 3) s.items.back().client = p.items[c.j].client;   // third probe: i's question from j's thread
+        Segment e; e.den = 0; e.budget = 0; e.items = {static_cast<int>(s.items.size() - 1)};
+        s.segs.push_back(e);
+        }
+      }
+    }
+  return s;
+  }
+
+// the whole plan exactly as in the reference execution (so every order-dependent assignment - pool slots handed out at
+// first use, table positions - is the same), then the two conflicting calls once more, this time in flight together,
+// then the echo probes
+static Schedule tail_schedule(const Plan & p, const Conflict & c, uint64_t sseed)
+  {
+  Rng r(sseed ^ 0xbb67ae8584caa73bull);
+  std::vector<int> fwd(p.items.size());
+  for (size_t i = 0; i < fwd.size(); ++i) fwd[i] = static_cast<int>(i);
+  Schedule s = serial_schedule(p.items, fwd, p.clients, p.respawn);
+  Segment g; g.focus = c.addrs;
+  if (r.chance(60)) { g.den = 1; g.budget = 1 + static_cast<int>(r.below(4)); } else { g.den = 8; g.budget = 2 + static_cast<int>(r.below(5)); }
+  for (int src : {c.i, c.j}) { s.items.push_back(p.items[src]); g.items.push_back(static_cast<int>(s.items.size() - 1)); }
+  s.segs.push_back(g);
+  for (int k = 0; k < 3; ++k)
+    {
+    int src = (k == 1) ? c.j : c.i;
+    s.items.push_back(p.items[src]);
+    if (k == 2) s.items.back().client = p.items[c.j].client;
+    Segment e; e.den = 0; e.budget = 0; e.items = {static_cast<int>(s.items.size() - 1)};
+    s.segs.push_back(e);
     }
   return s;
   }
@@ -994,11 +1061,23 @@ static int do_scan_fine(uint64_t seed0, uint64_t count, const char * hashfile, u
     Schedule ref = serial_schedule(p.items, fwd, p.clients, p.respawn); ref.log_access = true;
     Outcome oref = run_schedule(ref, true, 0);
     std::vector<Res> ra = oref.res;
-    uint64_t writes_seen = 0;
-    std::vector<Conflict> conflicts = find_conflicts(p, oref.access, writes_seen);
+    uint64_t writes_seen = 0, plain_pairs = 0;
+    std::vector<Conflict> conflicts = find_conflicts(p, oref.access, writes_seen, plain_pairs);
+    st.plain_conflict_pairs += plain_pairs;
+    if (getenv("HSIM_DEBUG") && plain_pairs)
+      {
+      fprintf(stderr, "seed %" PRIu64 ": n=%zu clients=%d respawns=%zu conflicts=%zu plain_differing=%" PRIu64 "\n", seed, n, p.clients, p.respawn.size(), conflicts.size(), plain_pairs);
+      for (size_t q = 0; q < conflicts.size() && q < 6; ++q)
+        {
+        const Conflict & c = conflicts[q];
+        fprintf(stderr, "  pair (%d c%d %s %s) (%d c%d %s %s) addrs=%zu  res_i=%s res_j=%s\n", c.i, p.items[c.i].client, g_ops[p.items[c.i].op].name.c_str(), hex(p.items[c.i].a).c_str(),
+                c.j, p.items[c.j].client, g_ops[p.items[c.j].op].name.c_str(), hex(p.items[c.j].a).c_str(), c.addrs.size(), hex(ra[c.i].bits).c_str(), hex(ra[c.j].bits).c_str());
+        }
+      }
     st.access_records += oref.access.size(); st.nonstack_writes += writes_seen; st.conflict_pairs += conflicts.size();
     if (!conflicts.empty()) ++st.plans_with_conflicts;
-    int directed = conflicts.empty() ? 0 : static_cast<int>(std::min<size_t>(4, conflicts.size()));
+    int directed = conflicts.empty() ? 0 : static_cast<int>(std::min<size_t>(plain_pairs ? 8 : 2, conflicts.size()));
+    if (getenv("HSIM_DIRECTED") && plain_pairs) directed = atoi(getenv("HSIM_DIRECTED"));
     account_plan(st, p, ra, seed, 1 + variants + directed);
     bool found = false;
     for (int v = 0; v < variants + directed && !found; ++v)
@@ -1006,9 +1085,23 @@ static int do_scan_fine(uint64_t seed0, uint64_t count, const char * hashfile, u
       uint64_t sseed = mix64(seed, 0x1000 + static_cast<uint64_t>(v));
       Schedule sc;
       if (v < variants) sc = fine_schedule(p, sseed);
-      else { Rng pick(sseed); sc = directed_schedule(p, conflicts[pick.below(conflicts.size())], sseed); ++st.directed_execs; }
+      else
+        {   // plain conflicts are listed first; take from them while there are any
+        Rng pick(sseed);
+        size_t pool = plain_pairs ? static_cast<size_t>(plain_pairs) : conflicts.size();
+        const Conflict & cf = conflicts[pick.below(pool)];
+        sc = (v % 2) ? tail_schedule(p, cf, sseed) : directed_schedule(p, cf, sseed); ++st.directed_execs;
+        }
       Outcome oc = run_schedule(sc, false, sseed);
       ++st.fine_execs;
+      if (getenv("HSIM_DEBUG") && v >= variants && oc.complete)
+        {
+        fprintf(stderr, "  directed v=%d: trace", v);
+        for (auto & t : oc.trace) if (t.from != SW_START) fprintf(stderr, " [seg%u c%u@%d->c%u]", t.seg, t.from, static_cast<int>(t.idx), t.to);
+        fprintf(stderr, " echoes:");
+        for (size_t q = n; q < oc.res.size(); ++q) fprintf(stderr, " %s(%s)=%s", g_ops[sc.items[q].op].name.c_str(), hex(sc.items[q].a).c_str(), hex(oc.res[q].bits).c_str());
+        fprintf(stderr, "\n");
+        }
       if (!oc.complete) continue;
       uint64_t th = mix64(p.hash, 0x77);
       for (const TraceRec & t : oc.trace) { th = mix64(th, (static_cast<uint64_t>(t.seg) << 40) ^ (static_cast<uint64_t>(t.from) << 32) ^ t.idx); th = mix64(th, t.to); if (t.from != SW_START && t.idx != SW_AT_END) ++st.preemptions; }
@@ -1017,12 +1110,20 @@ static int do_scan_fine(uint64_t seed0, uint64_t count, const char * hashfile, u
       bool has_conc = false;
       for (const Segment & g : sc.segs) if (g.items.size() > 1) has_conc = true;
       if (has_conc) { st.traces.insert(th); if (hf) fwrite(&th, 8, 1, hf); }
-      for (size_t i = 0; i < n && !found; ++i)
+      for (size_t i = 0; i < oc.res.size() && !found; ++i)
         {
-        if (ra[i].status == 255 || oc.res[i].status == 255 || same(ra[i], oc.res[i])) continue;
+        // items beyond the plan are echo probes: copies of a plan item, so their reference is that item's reference result
+        size_t refi = i;
+        if (i >= n) { refi = n; for (size_t q = 0; q < n; ++q) if (p.items[q].op == sc.items[i].op && p.items[q].a == sc.items[i].a && p.items[q].b == sc.items[i].b) { refi = q; break; } if (refi == n) continue; }
+        if (ra[refi].status == 255 || oc.res[i].status == 255 || same(ra[refi], oc.res[i])) continue;
         ++st.disagreements;
-        Res iso = isolated(p.items[i]); ++st.iso_checks;
+        Res iso = isolated(sc.items[i]); ++st.iso_checks;
         if (iso.status == 255) continue;
+        if (i >= n)
+          {
+          if (!same(oc.res[i], iso)) { if (report(seed, "fine", with_trace(sc, oc.trace), static_cast<int>(i), iso)) ++st.findings; else ++st.unstable; found = true; }
+          continue;
+          }
         if (!same(oc.res[i], iso))
           { if (report(seed, "fine", with_trace(sc, oc.trace), static_cast<int>(i), iso)) ++st.findings; else ++st.unstable; found = true; }
         else if (!same(ra[i], iso))
